@@ -26,9 +26,12 @@ RULE = ("case = one script line.  W: window-tree / restack-queue lifecycle scrip
         "distinct = (script kind, verdict, set of call kinds, #windows, handlers present / copy-out kind x fit class).")
 ASSUMPTIONS = [
     "PARTIAL by nature: memory safety of the C is a run-time fact observed by the sanitizers on the explored histories; "
-    "the theorems are about the heap-level ownership model of the repaired window.c and quantify over event-free "
-    "histories accepted by the heap-independent discipline wf_client (key/mouse dispatch with re-entrant handlers is "
-    "modelled and tested, not proved); that enough fuel exists (termination) is not proved",
+    "the theorems are about the heap-level ownership model of the repaired window.c: for event-free histories with the "
+    "predictive client discipline wf_client (the oracle of this check); for histories with key and mouse events (the whole "
+    "drag state machine, re-entrant handlers making any calls) with the discipline wf_trace of LifeSpecEv.v, which reads "
+    "the library's frame references off the model's trace -- that wf_client accepts only traces wf_trace accepts is "
+    "proved for traces without frames and tested by the oracle on every case; more fuel never changes a verdict "
+    "(proved), an explicit fuel bound for event-free histories is not proved, with events none exists (proved)",
     "all windows of a script have the same geometry (the pointer structure, not the geometry, is explored)",
     "a single root window per script; the harness holds the only client reference to the terminal",
     "R cases: text and erase calls cover a whole line, so that a line is a single span (span splitting, masks, clips "
@@ -40,7 +43,8 @@ TRUSTED = [
     "AddressSanitizer/UndefinedBehaviourSanitizer/LeakSanitizer of gcc 12 and the allocation hooks "
     "(__sanitizer_install_malloc_and_free_hooks) report every invalid access / outstanding block of the explored runs",
     "model coq/LifeDefs.v hand-written after src/window.c (repaired); discipline checker and oracle coq/LifeSpec.v; "
-    "model coq/LifePenDefs.v hand-written after the pen / string reference counting of src/renderbuffer.c",
+    "model coq/LifePenDefs.v hand-written after the pen / string reference counting of src/renderbuffer.c; "
+    "coq/LifeBindDefs.v hand-written after src/bindings.c (heap twin of coq/BindDefs.v, not tested against the C separately)",
     "the harness harness/C08.c (+C08_objs.inc): script interpreter, fork per case, classification of sanitizer reports",
 ]
 
